@@ -238,9 +238,10 @@ class Series:
     # ---- arithmetic (pandas aligns two Series on the union of their indices)
     def _binop(self, o, f):
         if isinstance(o, Series):
-            if self._i.equals(o._i): return Series([f(a, b) for a, b in zip(self._v, o._v)], Index(self._i._l), self.name)
+            nm = self.name if self.name == o.name else None
+            if self._i.equals(o._i): return Series([f(a, b) for a, b in zip(self._v, o._v)], Index(self._i._l), nm)
             u = self._i.union(o._i); a = self.reindex(u); b = o.reindex(u)
-            return Series([f(x, y) for x, y in zip(a._v, b._v)], u)
+            return Series([f(x, y) for x, y in zip(a._v, b._v)], u, nm)
         return Series([f(a, o) for a in self._v], Index(self._i._l), self.name)
     def __add__(s, o): return s._binop(o, lambda a, b: a + b)
     def __radd__(s, o): return s._binop(o, lambda a, b: b + a)
@@ -303,8 +304,10 @@ class Arr2:
         return Arr(out)
 
 class Columns(list):
-    """column labels: a list that pandas code treats like an Index"""
-    pass
+    """column labels: a list that pandas code treats like an Index (intersection / union are sorted, as pandas does for sortable labels)"""
+    def intersection(self, o): return Columns(sorted(c for c in self if c in list(o)))
+    def union(self, o): return Columns(sorted(set(self) | set(o)))
+    def equals(self, o): return list(self) == list(o)
 
 class _FILoc:
     def __init__(self, f): self.f = f
@@ -325,12 +328,20 @@ class DataFrame:
     """frame with few columns and an index that may repeat labels (bitemporal stores): columns dict + label list"""
     def __init__(self, data = None, index = None, columns = None):
         if isinstance(data, Series):
-            if columns is None or len(columns) != 1: raise Unsupported('minipd: DataFrame(Series) needs exactly one column name')
+            if columns is None: columns = [data.name if data.name is not None else 0]
+            if len(columns) != 1: raise Unsupported('minipd: DataFrame(Series, several columns)')
             self._cols = Columns(columns); self._c = {columns[0]: list(data._v)}; self._i = Index(data._i._l, data._i.name)
         elif isinstance(data, dict):
-            self._cols = Columns(data.keys()); self._c = {k: list(v) for k, v in data.items()}
-            n = len(next(iter(self._c.values()))) if self._c else 0
+            self._cols = Columns(data.keys())
+            sers = [v for v in data.values() if isinstance(v, Series)]
+            if sers:
+                if index is None:
+                    index = sers[0]._i
+                    if not all(v._i.equals(index) for v in sers): raise Unsupported('minipd: DataFrame(dict of differently indexed Series)')
+            n = len(index) if index is not None else builtins.max([len(v) for v in data.values() if isinstance(v, (list, Arr, Series))] + [0])
+            self._c = {k: (list(v._v) if isinstance(v, Series) else list(v) if isinstance(v, (list, Arr)) else [v] * n) for k, v in data.items()}
             self._i = _mk_index(index if index is not None else range(n))
+            if isinstance(index, Index): self._i = Index(index._l, index.name)
         elif isinstance(data, Arr2):
             n, m = data.shape
             self._cols = Columns(columns if columns is not None else range(m)); self._c = {c: [data._r[i][j] for i in range(n)] for j, c in enumerate(self._cols)}
@@ -379,6 +390,10 @@ class DataFrame:
             f = self.copy(); f._cols = Columns(item); f._c = {c: list(self._c[c]) for c in item}; return f
         raise Unsupported('minipd: DataFrame[%s]' % type(item).__name__)
     def __setitem__(self, col, value):
+        if isinstance(col, DataFrame):                      # boolean frame mask
+            if list(col._cols) != list(self._cols): raise Unsupported('minipd: mask frame with other columns')
+            for c in self._cols: self._c[c] = [(value if k else v) for v, k in zip(self._c[c], col._c[c])]
+            return
         if isinstance(value, (list, Arr)): vals = list(value)
         elif isinstance(value, Series): vals = list(value._v)
         else: vals = [value] * len(self)
@@ -405,6 +420,32 @@ class DataFrame:
         f = self.copy()
         for c in f._cols: f._c[c] = [core.sym_not(v) for v in f._c[c]]
         return f
+    def reindex(self, index = None, method = None, limit = None, **kw):
+        new = _mk_index(index); f = DataFrame(); f._cols = Columns(self._cols); f._i = Index(new._l, new.name)
+        f._c = {c: Series(self._c[c], Index(self._i._l)).reindex(new, method = method, limit = limit)._v for c in self._cols}
+        return f
+    def min(self, axis = 0):
+        if axis != 1: raise Unsupported('minipd: DataFrame.min(axis=%r)' % (axis,))
+        out = []
+        for i in range(len(self)):
+            m = self._c[self._cols[0]][i]
+            for c in self._cols[1:]: m = _and(m, self._c[c][i])         # boolean frames only (row-wise all)
+            out.append(m)
+        return Series(out, Index(self._i._l, self._i.name))
+    def _binop(self, o, f):
+        if isinstance(o, DataFrame):
+            if list(o._cols) != list(self._cols) or not o._i.equals(self._i): raise Unsupported('minipd: arithmetic of differently shaped frames')
+            r = self.copy(); r._c = {c: [f(a, b) for a, b in zip(self._c[c], o._c[c])] for c in self._cols}; return r
+        if isinstance(o, Series): raise Unsupported('minipd: frame op series')
+        r = self.copy(); r._c = {c: [f(a, o) for a in self._c[c]] for c in self._cols}; return r
+    def __add__(s, o): return s._binop(o, lambda a, b: a + b)
+    def __radd__(s, o): return s._binop(o, lambda a, b: b + a)
+    def __sub__(s, o): return s._binop(o, lambda a, b: a - b)
+    def __mul__(s, o): return s._binop(o, lambda a, b: a * b)
+    def __rmul__(s, o): return s._binop(o, lambda a, b: b * a)
+    def __truediv__(s, o): return s._binop(o, _npdiv)
+    def __eq__(s, o): return s._binop(o, lambda a, b: a == b)
+    __hash__ = None
     def max(self, axis = 0):
         if axis != 1: raise Unsupported('minipd: DataFrame.max(axis=%r)' % (axis,))
         out = []
